@@ -9,6 +9,7 @@ import (
 	"math"
 	"math/big"
 	"math/bits"
+	"sort"
 	"strings"
 
 	"golang.org/x/tools/go/packages"
@@ -36,6 +37,8 @@ func checkC03(c *Ctx, r *Report) {
 	check1DTables(c, r)
 	checkCodabarMinLength(c, r)
 	checkTryNextReader(c, r)
+	checkUPCEANReaderSet(c, r)
+	checkWriterStateless(c, r) // a writer object renders every symbol with its own defaults: a hint of one call does not stay behind (also C14)
 	checkCodabarWriterWhole(c, r)
 	checkCode128RoundTrip(c, r)
 	checkRowScan(c, r)
@@ -1194,7 +1197,6 @@ func checkCode128RoundTrip(c *Ctx, r *Report) {
 		add("a" + "31415926"[:n])
 		add("31415926"[:n] + "\x03")
 	}
-	type stop struct{ text string }
 	bad := ""
 	folds := 0
 	forceKey := ""
@@ -1255,88 +1257,11 @@ func checkCode128RoundTrip(c *Ctx, r *Report) {
 			return
 		}
 		// ---- reader
-		k := 1
-		rh := &rpf{unroll: 100000, maxSteps: 2000000}
-		rh.callHook = func(rr *rpf, call *ast.CallExpr, callee types.Object) (*Val, bool) {
-			fn, ok := callee.(*types.Func)
-			if !ok {
-				return nil, false
-			}
-			switch fn.Name() {
-			case "GetNextUnset":
-				return rr.expr(call.Args[0]), true
-			case "GetSize":
-				return vint(100000), true
-			case "min":
-				a, b := rr.expr(call.Args[0]), rr.expr(call.Args[1])
-				if a.K == VInt && b.K == VInt {
-					if a.I < b.I {
-						return a, true
-					}
-					return b, true
-				}
-			case "NewResultPoint":
-				return &Val{K: VNil}, true
-			case "NewResult":
-				conv, isConv := call.Args[0].(*ast.CallExpr)
-				if !isConv || len(conv.Args) != 1 {
-					rpfFail("the result text is not string(result)")
-				}
-				bs, ok := listInts(rr.expr(conv.Args[0]))
-				if !ok {
-					rpfFail("the result text is not a list of constant bytes")
-				}
-				b := make([]byte, len(bs))
-				for i, x := range bs {
-					b[i] = byte(x)
-				}
-				panic(stop{string(b)})
-			}
-			return errCtorHook(rr, call, callee)
+		got, status := c128ReadFold(c, rfd, rp, table, codes, nil)
+		failed := status == "error"
+		if status != "result" && status != "error" {
+			bad = "?reader, " + what + ": " + status
 		}
-		rh.multiHook = func(call *ast.CallExpr, callee types.Object) ([]*Val, bool) {
-			switch {
-			case isFuncNamed(callee, "oned", "code128FindStartPattern"):
-				return []*Val{{K: VList, L: []*Val{vint(10), vint(21), vint(codes[0])}}, {K: VNil}}, true
-			case isFuncNamed(callee, "oned", "code128DecodeCode"):
-				if k >= len(codes) {
-					rpfFail("the reader asks for more symbols than the writer drew")
-				}
-				code := codes[k]
-				k++
-				if cnt := rpfCurrent.expr(call.Args[1]); cnt.K == VList && cnt.Local {
-					row, _ := listInts(table.L[code])
-					for i := range cnt.L {
-						if i < len(row) {
-							cnt.L[i] = vint(row[i])
-						}
-					}
-				}
-				return []*Val{vint(code), {K: VNil}}, true
-			case isMethodNamed(callee, "", "BitArray", "IsRange"):
-				return []*Val{vbool(true), {K: VNil}}, true
-			}
-			return nil, false
-		}
-		got, failed := "", false
-		func() {
-			defer func() {
-				if x := recover(); x != nil {
-					if s, ok := x.(stop); ok {
-						got = s.text
-						return
-					}
-					panic(x)
-				}
-			}()
-			rres, rerr := c.rpfCall(rfd, rp, []*Val{vint(0), {K: VNil}, {K: VNil}}, rh)
-			if rerr != nil {
-				bad = "?reader, " + what + ": " + rerr.Error()
-				return
-			}
-			_ = rres
-			failed = true
-		}()
 		if bad != "" {
 			return
 		}
@@ -1366,6 +1291,193 @@ func checkCode128RoundTrip(c *Ctx, r *Report) {
 	}
 	r.Extra("S-C128RT contents", folds)
 	reportFold(r, c, "S-C128RT", key, wfd.Pos(), bad)
+}
+
+type c128Stop struct{ text string }
+
+// c128ReadFold folds code128Reader.DecodeRow with the pattern matcher replaced by the given symbol values (codes[0] is
+// the start symbol; the quiet-zone tests are answered true). It returns the text handed to NewResult and "result", or
+// "error" when the fold returns an error, or the fold's own failure text.
+func c128ReadFold(c *Ctx, rfd *ast.FuncDecl, rp *packages.Package, table *Val, codes []int64, hints *Val) (string, string) {
+	k := 1
+	rh := &rpf{unroll: 100000, maxSteps: 2000000}
+	rh.callHook = func(rr *rpf, call *ast.CallExpr, callee types.Object) (*Val, bool) {
+		fn, ok := callee.(*types.Func)
+		if !ok {
+			return nil, false
+		}
+		switch fn.Name() {
+		case "GetNextUnset":
+			return rr.expr(call.Args[0]), true
+		case "GetSize":
+			return vint(100000), true
+		case "min":
+			a, b := rr.expr(call.Args[0]), rr.expr(call.Args[1])
+			if a.K == VInt && b.K == VInt {
+				if a.I < b.I {
+					return a, true
+				}
+				return b, true
+			}
+		case "NewResultPoint":
+			return &Val{K: VNil}, true
+		case "NewResult":
+			conv, isConv := call.Args[0].(*ast.CallExpr)
+			if !isConv || len(conv.Args) != 1 {
+				rpfFail("the result text is not string(result)")
+			}
+			bs, ok := listInts(rr.expr(conv.Args[0]))
+			if !ok {
+				rpfFail("the result text is not a list of constant bytes")
+			}
+			b := make([]byte, len(bs))
+			for i, x := range bs {
+				b[i] = byte(x)
+			}
+			panic(c128Stop{string(b)})
+		}
+		return errCtorHook(rr, call, callee)
+	}
+	rh.multiHook = func(call *ast.CallExpr, callee types.Object) ([]*Val, bool) {
+		switch {
+		case isFuncNamed(callee, "oned", "code128FindStartPattern"):
+			return []*Val{{K: VList, L: []*Val{vint(10), vint(21), vint(codes[0])}}, {K: VNil}}, true
+		case isFuncNamed(callee, "oned", "code128DecodeCode"):
+			if k >= len(codes) {
+				rpfFail("the reader asks for more symbols than the script holds")
+			}
+			code := codes[k]
+			k++
+			if cnt := rpfCurrent.expr(call.Args[1]); cnt.K == VList && cnt.Local {
+				row, _ := listInts(table.L[code])
+				for i := range cnt.L {
+					if i < len(row) {
+						cnt.L[i] = vint(row[i])
+					}
+				}
+			}
+			return []*Val{vint(code), {K: VNil}}, true
+		case isMethodNamed(callee, "", "BitArray", "IsRange"):
+			return []*Val{vbool(true), {K: VNil}}, true
+		}
+		return nil, false
+	}
+	if hints == nil {
+		hints = &Val{K: VNil}
+	}
+	got, status := "", ""
+	func() {
+		defer func() {
+			if x := recover(); x != nil {
+				if s, ok := x.(c128Stop); ok {
+					got, status = s.text, "result"
+					return
+				}
+				panic(x)
+			}
+		}()
+		_, rerr := c.rpfCall(rfd, rp, []*Val{vint(0), {K: VNil}, hints}, rh)
+		if rerr != nil {
+			status = rerr.Error()
+			return
+		}
+		status = "error"
+	}()
+	return got, status
+}
+
+// S-C128TOTAL: the Code 128 row decoder on arbitrary symbol-value sequences whose check symbol verifies
+func checkCode128ReaderTotal(c *Ctx, r *Report) {
+	r.Rule("S-C128TOTAL", "code128Reader.DecodeRow, folded from source with the pattern matcher replaced by a script of symbol values - each of the three start symbols, then every first symbol value 0..105, then nothing or one of the values 0, 64, 95..105, then the check symbol that makes the mod-103 test pass, then STOP, without hints and with ASSUME_GS1 - either returns an error or builds a result: the removal of the check symbol's characters from the text (one character, two in code set C, none when it read as a function symbol) never slices below zero, whatever symbol the check value happens to be; a script of data symbols only is read (also when its check value is 98, the SHIFT symbol, or another function symbol) and is refused with its check symbol off by one", 1)
+	rfd, rp := c.funcDeclOf("oned", "code128Reader.DecodeRow")
+	key := "oned.code128Reader.DecodeRow scripted symbol values"
+	if rfd == nil {
+		r.AnchorLost("S-C128TOTAL", key, "code128Reader.DecodeRow not found")
+		return
+	}
+	r.Analysed(key)
+	tinit, tp := c.varInit("oned", "code128CODE_PATTERNS")
+	if tinit == nil {
+		r.AnchorLost("S-C128TOTAL", key, "code128CODE_PATTERNS not found")
+		return
+	}
+	table := c.eval(tp, tinit)
+	if table.K != VList || len(table.L) < 107 {
+		r.Undecided("S-C128TOTAL", key, c.pos(tinit.Pos()), "pattern table is not a literal list")
+		return
+	}
+	gs1Key := ""
+	if k, ok := constValIn(c, "", "DecodeHintType_ASSUME_GS1"); ok {
+		gs1Key = fmt.Sprint(k)
+	}
+	bad := ""
+	folds, results := 0, 0
+	seconds := []int64{-1, 0, 64, 95, 96, 97, 98, 99, 100, 101, 102, 103, 104, 105}
+	for _, start := range []int64{103, 104, 105} {
+		for v1 := int64(0); v1 <= 105 && bad == ""; v1++ {
+			for _, v2 := range seconds {
+				if v1 >= 103 || v2 >= 103 {
+					continue // start symbols inside a symbol are refused before anything else (S-C128RT covers the exit)
+				}
+				codes := []int64{start, v1}
+				sum := start + v1
+				if v2 >= 0 {
+					codes = append(codes, v2)
+					sum += 2 * v2
+				}
+				codes = append(codes, sum%103, 106)
+				for _, gs1 := range []bool{false, true} {
+					var hints *Val
+					if gs1 {
+						if gs1Key == "" || v2 >= 0 && v2 != 102 && v1 != 102 {
+							continue
+						}
+						hints = &Val{K: VStruct, Fields: map[string]*Val{gs1Key: vbool(true)}}
+					}
+					_, status := c128ReadFold(c, rfd, rp, table, codes, hints)
+					folds++
+					// plain data symbols only (no function or code-set symbol): the symbol is valid and must be read,
+					// and with its check symbol off by one it must be refused
+					plain := v1 < 96 && v2 < 96
+					if start == 105 {
+						plain = v1 < 100 && v2 < 100
+					}
+					if plain && !gs1 {
+						if status == "error" {
+							bad = fmt.Sprintf("symbol values %v - data symbols only, check symbol %d as the standard computes it - are refused", codes, sum%103)
+							break
+						}
+						wrong := append(append([]int64{}, codes[:len(codes)-2]...), (sum+1)%103, 106)
+						if _, st2 := c128ReadFold(c, rfd, rp, table, wrong, hints); st2 == "result" {
+							bad = fmt.Sprintf("symbol values %v, whose check symbol should be %d, are read as a symbol: the mod-103 check does not hold", wrong, sum%103)
+							break
+						}
+						folds++
+					}
+					switch {
+					case status == "result":
+						results++
+					case status == "error":
+					case strings.Contains(status, "out of range"):
+						bad = fmt.Sprintf("symbol values %v (check symbol %d verifies): %s - a panic instead of a result or an error", codes, sum%103, status)
+					default:
+						bad = fmt.Sprintf("?symbol values %v: %s", codes, status)
+					}
+					if bad != "" {
+						break
+					}
+				}
+				if bad != "" {
+					break
+				}
+			}
+		}
+	}
+	r.Extra("S-C128TOTAL scripts folded / giving a result", fmt.Sprintf("%d/%d", folds, results))
+	if bad == "" && results < 1000 {
+		bad = fmt.Sprintf("?only %d of %d scripts reach the result: the script no longer drives the decoder", results, folds)
+	}
+	reportFold(r, c, "S-C128TOTAL", key, rfd.Pos(), bad)
 }
 
 // checkUPCADelegation: UPC-A is written as the EAN-13 symbol of "0" + contents, the contents as given.
@@ -1817,4 +1929,137 @@ func boolString(bs []bool) string {
 		}
 	}
 	return sb.String()
+}
+
+// M-UPCEANSET: the sub-readers the multi-format UPC/EAN reader installs for a POSSIBLE_FORMATS hint
+func checkUPCEANReaderSet(c *Ctx, r *Report) {
+	r.Rule("M-UPCEANSET", "NewMultiFormatUPCEANReader, folded with the four reader constructors replaced by tags, for no hint, for every non-empty subset of {EAN_13, UPC_A, EAN_8, UPC_E} in two orders, and for a list of other formats only: every requested format has a reader that reads it (UPC-A its own or the EAN-13 reader, whose result is re-labelled), and without a usable request EAN-13, EAN-8 and UPC-E readers are installed - a symbol of a requested format is never without a reader", 1)
+	fd, p := c.funcDeclOf("oned", "NewMultiFormatUPCEANReader")
+	key := "oned.NewMultiFormatUPCEANReader/readers"
+	if fd == nil {
+		r.AnchorLost("M-UPCEANSET", key, "constructor not found")
+		return
+	}
+	r.Analysed(key)
+	hk, ok := constValIn(c, "", "DecodeHintType_POSSIBLE_FORMATS")
+	fmts := map[string]int64{}
+	for _, n := range []string{"EAN_13", "UPC_A", "EAN_8", "UPC_E", "CODE_128"} {
+		v, okf := constValIn(c, "", "BarcodeFormat_"+n)
+		ok = ok && okf
+		fmts[n] = v
+	}
+	if !ok {
+		r.Undecided("M-UPCEANSET", key, c.pos(fd.Pos()), "hint key / format constants not found")
+		return
+	}
+	ctorKind := map[string]string{"NewEAN13Reader": "EAN_13", "NewUPCAReader": "UPC_A", "NewEAN8Reader": "EAN_8", "NewUPCEReader": "UPC_E"}
+	names := []string{"EAN_13", "UPC_A", "EAN_8", "UPC_E"}
+	var requests [][]string
+	requests = append(requests, nil, []string{"CODE_128"})
+	for m := 1; m < 16; m++ {
+		var fwd []string
+		for i, n := range names {
+			if m>>uint(i)&1 == 1 {
+				fwd = append(fwd, n)
+			}
+		}
+		requests = append(requests, fwd)
+		if len(fwd) > 1 {
+			rev := make([]string, len(fwd))
+			for i, n := range fwd {
+				rev[len(fwd)-1-i] = n
+			}
+			requests = append(requests, rev)
+		}
+	}
+	bad := ""
+	for _, req := range requests {
+		hints := &Val{K: VStruct, Fields: map[string]*Val{}} // an empty hints map
+		var list *Val
+		if req != nil {
+			list = &Val{K: VList}
+			for _, n := range req {
+				list.L = append(list.L, vint(fmts[n]))
+			}
+			hints = &Val{K: VStruct, Fields: map[string]*Val{fmt.Sprint(hk): list}}
+		}
+		var installed *Val
+		h := &rpf{unroll: 100, effectCalls: true}
+		h.assertHook = func(rr *rpf, ta *ast.TypeAssertExpr, v *Val) (bool, bool) {
+			if v != nil && v.K == VStruct && v.Fields["kind"] != nil {
+				return true, true // a tagged reader asserted to its own concrete type
+			}
+			return v == list && list != nil, true
+		}
+		h.callHook = func(rr *rpf, call *ast.CallExpr, callee types.Object) (*Val, bool) {
+			if fn, isF := callee.(*types.Func); isF {
+				if k, isCtor := ctorKind[fn.Name()]; isCtor {
+					return &Val{K: VStruct, Ptr: true, Local: true, Fields: map[string]*Val{"kind": vstr(k)}}, true
+				}
+				if fn.Name() == "NewOneDReader" {
+					if len(call.Args) == 1 {
+						if t := rr.expr(call.Args[0]); t.K == VStruct {
+							installed = t.Fields["readers"]
+						}
+					}
+					return &Val{K: VStruct, Ptr: true, Fields: map[string]*Val{}}, true
+				}
+			}
+			return nil, false
+		}
+		res, err := c.rpfCall(fd, p, []*Val{hints}, h)
+		what := fmt.Sprintf("POSSIBLE_FORMATS %v", req)
+		if req == nil {
+			what = "no hint"
+		}
+		if err != nil {
+			bad = "?" + what + ": " + err.Error()
+			break
+		}
+		if installed == nil && len(res) == 1 && res[0].K == VStruct {
+			installed = res[0].Fields["readers"]
+		}
+		if installed == nil || installed.K != VList {
+			bad = "?" + what + ": the reader list was not found in the result"
+			break
+		}
+		have := map[string]bool{}
+		for _, rd := range installed.L {
+			if rd.K == VStruct && rd.Fields["kind"] != nil {
+				have[rd.Fields["kind"].S] = true
+			}
+		}
+		need := req
+		usable := false
+		for _, n := range req {
+			if n != "CODE_128" {
+				usable = true
+			}
+		}
+		if !usable {
+			need = []string{"EAN_13", "UPC_A", "EAN_8", "UPC_E"}
+		}
+		for _, n := range need {
+			if n == "CODE_128" {
+				continue
+			}
+			if !(have[n] || n == "UPC_A" && have["EAN_13"]) {
+				bad = fmt.Sprintf("%s: no installed reader reads %s (installed: %v)", what, n, keysOf(have))
+				break
+			}
+		}
+		if bad != "" {
+			break
+		}
+	}
+	reportFold(r, c, "M-UPCEANSET", key, fd.Pos(), bad)
+}
+
+func keysOf(m map[string]bool) []string {
+	var out []string
+	for k := range m {
+		out = append(out, k)
+	}
+	sort.Strings(out)
+	return out
 }
